@@ -12,6 +12,7 @@ import weakref
 
 import toolz
 from tornado import gen
+from tornado.concurrent import Future
 from tornado.locks import Condition
 from tornado.ioloop import IOLoop
 from tornado.queues import Queue
@@ -1562,6 +1563,8 @@ class rate_limit(Stream):
     def __init__(self, upstream, interval, **kwargs):
         self.interval = convert_interval(interval)
         self.next = 0
+        self._turn = None   # resolves when the most recent arrival has left
+        self._left = None   # when the last element left
 
         kwargs["ensure_io_loop"] = True
         Stream.__init__(self, upstream, **kwargs)
@@ -1572,10 +1575,39 @@ class rate_limit(Stream):
         now = time()
         old_next = self.next
         self.next = max(now, self.next) + self.interval
+        turn = self._take_turn()
         if now < old_next:
             yield gen.sleep(old_next - now)
+        yield self._leave_in_turn(turn)
         yield self._emit(x, metadata=metadata)
         self._release_refs(metadata)
+
+    def _take_turn(self):
+        previous, mine = self._turn, Future()
+        self._turn = mine
+        return previous, mine
+
+    @gen.coroutine
+    def _leave_in_turn(self, turn):
+        """ Leave behind the elements that arrived earlier, and not too soon after them
+
+        On a busy loop the timer of an earlier element can fire late: a later
+        element must then neither overtake it nor follow it more closely than
+        the interval.
+        """
+        previous, mine = turn
+        try:
+            if previous is not None:
+                yield previous
+            if self._left is not None:
+                wait = self._left + self.interval - time()
+                if wait > 0:
+                    yield gen.sleep(wait)
+            self._left = time()
+        finally:
+            mine.set_result(None)
+            if self._turn is mine:
+                self._turn = None
 
 
 @Stream.register_api()
